@@ -69,7 +69,7 @@ theorem stOf_groupUpdate (A : List AggSpec) (k : Key) (r : Row) (k2 : Key) : ∀
       · subst e2; simp [e]
       · simp only [e2, if_false]
 
-theorem keys_groupAll (A : List AggSpec) (keys : List Nat) : ∀ (rows : List Row) (gs : List (Key × List AccSt)),
+theorem keys_groupAll (A : List AggSpec) (keys : List Expr) : ∀ (rows : List Row) (gs : List (Key × List AccSt)),
     (groupAll A keys gs rows).map Prod.fst =
       gs.map Prod.fst ++ (firstOcc (rows.map (keyOf keys))).filter (fun k => !(gs.map Prod.fst).contains k) := by
   intro rows
@@ -79,7 +79,7 @@ theorem keys_groupAll (A : List AggSpec) (keys : List Nat) : ∀ (rows : List Ro
     intro gs
     simp only [groupAll, List.map_cons, firstOcc, List.filter_cons]
     rw [ih, keys_groupUpdate]
-    have hk : keys.map r.get = keyOf keys r := rfl
+    have hk : keys.map (fun e => evalE e r) = keyOf keys r := rfl
     rw [hk]
     by_cases h : keyOf keys r ∈ gs.map Prod.fst
     · have hc : (gs.map Prod.fst).contains (keyOf keys r) = true := by simpa using h
@@ -99,7 +99,7 @@ theorem keys_groupAll (A : List AggSpec) (keys : List Nat) : ∀ (rows : List Ro
       · subst e; simp
       · simp [e, List.contains_append]
 
-theorem stOf_groupAll (A : List AggSpec) (keys : List Nat) (k : Key) : ∀ (rows : List Row) (gs : List (Key × List AccSt)),
+theorem stOf_groupAll (A : List AggSpec) (keys : List Expr) (k : Key) : ∀ (rows : List Row) (gs : List (Key × List AccSt)),
     stOf A (groupAll A keys gs rows) k =
       (rows.filter (fun r => keyOf keys r = k)).foldl (updateAll A) (stOf A gs k) := by
   intro rows
@@ -109,7 +109,7 @@ theorem stOf_groupAll (A : List AggSpec) (keys : List Nat) (k : Key) : ∀ (rows
     intro gs
     simp only [groupAll, List.filter_cons]
     rw [ih, stOf_groupUpdate]
-    have hk : keys.map r.get = keyOf keys r := rfl
+    have hk : keys.map (fun e => evalE e r) = keyOf keys r := rfl
     rw [hk]
     by_cases e : keyOf keys r = k
     · subst e; simp
@@ -132,7 +132,7 @@ theorem stOf_of_mem (A : List AggSpec) : ∀ (gs : List (Key × List AccSt)), (g
       exact ih hnd.2 g hg
 
 /-- group_partition, in terms of the dict of Aggregators -/
-theorem groupAll_spec (A : List AggSpec) (keys : List Nat) (rows : List Row) :
+theorem groupAll_spec (A : List AggSpec) (keys : List Expr) (rows : List Row) :
     (groupAll A keys [] rows).map Prod.fst = firstOcc (rows.map (keyOf keys)) ∧
     ∀ g ∈ groupAll A keys [] rows, g.2 = foldAcc A (rows.filter (fun r => keyOf keys r = g.1)) := by
   have h1 : (groupAll A keys [] rows).map Prod.fst = firstOcc (rows.map (keyOf keys)) := by
